@@ -25,6 +25,6 @@ rm -f $dest
 git checkout -q -- .
 git apply $dir/patch.diff 2>/dev/null || git apply --3way $dir/patch.diff
 for id in "$@"; do
-  VERIF_EVIDENCE_DIR=/tmp/mutant-evidence VERIF_REPO=$wt /verif/check $id 2>&1 | grep -E "^VIOLATION|^C[0-9]+ quick|INCONCLUSIVE|detail" | cut -c1-330 | head -5
+  VERIF_FAIL_DIR=/tmp/mutant-fails-$$ VERIF_EVIDENCE_DIR=/tmp/mutant-evidence-$$ VERIF_REPO=$wt /verif/check $id 2>&1 | grep -E "^VIOLATION|^C[0-9]+ quick|INCONCLUSIVE|detail" | cut -c1-330 | head -5
 done
-rm -f /verif/replays/*/fail-*.json
+rm -rf /tmp/mutant-fails-$$ /tmp/mutant-evidence-$$
